@@ -1122,6 +1122,7 @@ pub fn units() -> Vec<Unit> {
             ExternUnit("Gen.Region"),
             ExternEnum("Region"),
             CustomMulti(crate::dispatch::region_dispatch),
+            CustomMulti(crate::dispatch::region_tables),
         ],
     },
     Unit {
